@@ -221,8 +221,10 @@ def run(repo: Repo, chk: Check, thorough: bool = False) -> None:
     ok = bool(rets) and bool(filtered) and all(norm(r.value) in filtered for r in rets)
     chk.ob('R20.2', f'{CP}.ValidatorParser.parse :: returns the filtered mapping', ok, 'return new_data' if ok else 'the unfiltered data is returned', vpp.loc)
     # the table of known keys: a comprehension, or nested loops, over `parser._actions` x `get_possible_config_keys(action)`
-    kk: List[ast.AST] = [n for n in vpp.walk() if isinstance(n, ast.DictComp) and 'get_possible_config_keys' in norm(n)]
-    kk += [n for n in vpp.walk() if isinstance(n, ast.For) and norm(n.iter).endswith('._actions') and
+    from ..util import scope_nodes as _scope20
+    vpp_nodes = _scope20(repo, vpp)     # parse() and the private methods it calls (`known = self._get_known_config_keys()`)
+    kk: List[ast.AST] = [n for n in vpp_nodes if isinstance(n, ast.DictComp) and 'get_possible_config_keys' in norm(n)]
+    kk += [n for n in vpp_nodes if isinstance(n, ast.For) and norm(n.iter).endswith('._actions') and
            any(isinstance(x, ast.Call) and call_name(x) == 'get_possible_config_keys' for st in n.body for x in ast.walk(st))]
     chk.ob('R20.2', f'{CP}.ValidatorParser.parse :: known keys come from the argument parser itself', bool(kk),
            'argument_parser.get_possible_config_keys(action) for every action' if kk else 'known keys are no longer derived from the parser', vpp.loc)
